@@ -2,22 +2,14 @@ package main
 
 import (
 	"github.com/dadrus/heimdall/verif/engine"
-	"github.com/dadrus/heimdall/verif/props/c02"
-	"github.com/dadrus/heimdall/verif/props/c06"
-	"github.com/dadrus/heimdall/verif/props/c07"
 	"github.com/dadrus/heimdall/verif/props/c12"
-	"github.com/dadrus/heimdall/verif/props/c16"
 )
 
 func main() {
 	checks := map[string]*engine.Check{}
 
 	for _, c := range []*engine.Check{
-		c02.Check(),
-		c06.Check(),
-		c07.Check(),
 		c12.Check(),
-		c16.Check(),
 	} {
 		checks[c.ID] = c
 	}
